@@ -8,6 +8,16 @@ def sim(cls, quick, thorough, chunk=25, **kw):
     d.update(kw)
     return d
 
+def pure(cls, quick, thorough, chunk=4, **kw):
+    d = {"engine": "pure", "class": cls, "quick": quick, "thorough": thorough, "chunk": chunk}
+    d.update(kw)
+    return d
+
+def nats(cls, quick, thorough, chunk=4, **kw):
+    d = {"engine": "natseng", "class": cls, "quick": quick, "thorough": thorough, "chunk": chunk}
+    d.update(kw)
+    return d
+
 SIM_ASSUME = [
     "reference store (harness/h/refstore.go) models JetStream KV as calibrated by the C14 differential check",
     "library jitter (math/rand/v2 global) and goroutine order at equal virtual instants are not controlled: a spec denotes a family of executions",
@@ -79,4 +89,20 @@ PROPS = {
         "batches": [sim("multiterm", 250, 4000), sim("benign", 100, 1500), sim("connection", 60, 1000), sim("lifecycle", 60, 1000)],
         "min": {"quick": {"c19.ended_checks": 100}},
         "rule": R("promotion callbacks that block on their context; oracle: Done() state of each term's context at quiescent points vs. the term's end"), "assumptions": SIM_ASSUME},
+
+    "C15": {"level": "exploration", "trigger": ["c15.expected_transient", "c15.expected_permanent", "c15.neutral", "c15.ambiguous", "c15.captured"],
+        "batches": [pure("c15", 40, 1000), nats("c15captured", 1, 3, chunk=1)],
+        "min": {"quick": {"c15.expected_transient": 5000, "c15.expected_permanent": 5000, "c15.captured": 8}},
+        "rule": "batch k = 5000 error trees (depth <= 4) drawn by a PCG stream seeded with (VERIF_SEED, k): leaves = library sentinels and constructors, context errors, NATS client errors and API errors, free texts over a vocabulary holding every pattern of both classifiers; inner nodes = %w wrapping (single, double), errors.Join and the library's wrapper types; oracle: laws on every value, documented class on unambiguous trees; plus the error values captured from an embedded nats-server through the library's adapter; non-trivial = every generated tree; distinct = distinct tree descriptions",
+        "assumptions": ["oracle classes transcribe the property statement; trees mixing documented-transient and documented-permanent leaves, or holding free text with a classifier pattern, are only subject to the exclusivity/totality laws"]},
+    "C16": {"level": "exploration", "trigger": ["c16.expected_accept", "c16.expected_reject"], "exhaustive": "c16.exhaustive",
+        "batches": [pure("c16", 8, 125, chunk=8), pure("c16rand", 5, 50, chunk=2)],
+        "min": {"quick": {"c16.expected_accept": 1000, "c16.expected_reject": 100000}},
+        "rule": "full product lattice: H in {-1ns,0,1ns,1ms,1s,1h,1y} x TTL in {-1ns,0,1ns,3H-1ns,3H,3H+1ns,4y} x ValidationInterval in {-1ns,0,1ns,H-1ns,H,H+1ns} x DisconnectGracePeriod in {-1ns,0,1ns,2H-1ns,2H,2H+1ns} x MaxConsecutiveFailures in {-1,0,1} x Priority in {-1,0,1} x takeover x (Bucket,Group,InstanceID) in {empty, x[, space, unicode, 4KiB]}^3 (quick: 2 strings = 254016 configurations; thorough: 5 strings = 3969000, exhaustive) plus 20000 random configurations per batch; every configuration goes through leader.NewElection with a counting provider; oracle = independently written predicate (big-integer arithmetic), offending-field set, provider call counters; distinct = configurations",
+        "assumptions": ["durations up to one year (4 years for TTL): the 3xH overflow region is outside the quantifier"]},
+    "C17": {"level": "exploration", "trigger": ["c17.backoff_inputs", "c17.retry_scripts", "c17.breaker_scripts", "c17.rounds"],
+        "batches": [pure("c17backoff", 50, 1000), pure("c17retry", 100, 2000), pure("c17breaker", 100, 2000), sim("benign", 100, 2000), sim("c06", 100, 2000), sim("faulty", 60, 1000)],
+        "min": {"quick": {"c17.backoff_inputs": 50000, "c17.retry_scripts": 10000, "c17.breaker_scripts": 10000, "c17.rounds": 500}},
+        "rule": "backoff: 2000 configurations x attempt numbers in {0..70,100,1023,1024,1e4,1e6,MaxInt32,MaxInt} per batch, 10 draws each, against min(Max, Initial*Mult^n) in big-float arithmetic; retry: 200 outcome scripts over {ok,transient,permanent} x MaxAttempts 0..6 x cancellation times per batch inside a synctest bubble (exact virtual invocation times); breaker: 200 scripts of (dt on the cooldown lattice, outcome) per batch against a reference automaton; acquisition rounds: every round observed in the SIM traces (first attempt 10-100 ms after the round start, at most 4 attempts, backoff within 10%); distinct = distinct inputs/scripts/traces",
+        "assumptions": ["domain committed in DESIGN §9 C17 (Multiplier >= 1, Jitter in [0,1], non-negative durations)"]},
 }
